@@ -4,6 +4,7 @@ Facts about `combos` (= `itertools.combinations`) and the model's `choose`.
 import MM.Model.Basic
 import MM.Model.Search
 import Mathlib.Data.List.Sublists
+import Mathlib.Data.List.Sort
 import Mathlib.Data.Nat.Choose.Basic
 
 namespace MM
@@ -70,6 +71,11 @@ theorem nodup_of_mem_combos {α : Type} {r : Nat} {l s : List α}
 theorem sorted_of_mem_combos {r : Nat} {l s : List Nat}
     (hs : s ∈ combos r l) (hl : l.Pairwise (· < ·)) : s.Pairwise (· < ·) :=
   pairwise_of_mem_combos hs hl
+
+/-- Mathlib's `SortedLT` form of the same fact. -/
+theorem sortedLT_of_mem_combos {α : Type} [Preorder α] {r : Nat} {l s : List α}
+    (hs : s ∈ combos r l) (hl : l.SortedLT) : s.SortedLT :=
+  (pairwise_of_mem_combos hs hl.pairwise).sortedLT
 
 theorem subset_of_mem_combos {α : Type} {r : Nat} {l s : List α}
     (hs : s ∈ combos r l) : s ⊆ l := ((mem_combos r l s).1 hs).1.subset
